@@ -107,7 +107,10 @@ def _table_binop(op, la, lb, w, s):
          'AddUnchecked': lambda x, y: x + y, 'SubUnchecked': lambda x, y: x - y, 'MulUnchecked': lambda x, y: x * y,
          'BitAnd': lambda x, y: x & y, 'BitOr': lambda x, y: x | y, 'BitXor': lambda x, y: x ^ y,
          'Shl': lambda x, y: x << (y % w), 'ShlUnchecked': lambda x, y: x << (y % w),
-         'Shr': lambda x, y: x >> (y % w), 'ShrUnchecked': lambda x, y: x >> (y % w)}[op]
+         'Shr': lambda x, y: x >> (y % w), 'ShrUnchecked': lambda x, y: x >> (y % w),
+         # Rust semantics: truncation toward zero; the engine only passes concrete non-zero divisors (and never -1 for signed)
+         'Div': lambda x, y: (abs(x) // abs(y)) * (1 if (x < 0) == (y < 0) else -1),
+         'Rem': lambda x, y: x - y * ((abs(x) // abs(y)) * (1 if (x < 0) == (y < 0) else -1))}[op]
     return np.array([f(x, y) & m for x, y in zip(xa, xb)], dtype=np.uint64)
 
 
@@ -309,6 +312,10 @@ def zexpr(n):
             zb = zval(b, w)
             r = {'Add': lambda: za + zb, 'Sub': lambda: za - zb, 'Mul': lambda: za * zb, 'BitAnd': lambda: za & zb,
                  'BitOr': lambda: za | zb, 'BitXor': lambda: za ^ zb}[op.replace('Unchecked', '')]()
+    elif op in ('Div', 'Rem'):
+        a, b, w, s = A; za, zb = zval(a, w), zval(b, w)
+        if op == 'Div': r = (za / zb) if s else z3.UDiv(za, zb)
+        else: r = z3.SRem(za, zb) if s else z3.URem(za, zb)
     elif op in ('OvfAdd', 'OvfSub', 'OvfMul'):
         # overflow predicates written with standard bit-vector operators only (portable to cvc5)
         a, b, w, s = A; za, zb = zval(a, w), zval(b, w)
